@@ -51,3 +51,79 @@ pub fn diag_kind(e: &oq3_semantics::semantic_error::SemanticError) -> String {
     let k = format!("{:?}", e.kind());
     k.split('(').next().unwrap_or("").to_string()
 }
+
+// ---------------------------------------------------------------------------------------------
+// The same text analysed as the innermost file of an include chain whose other files declare
+// nothing and contain no fault of their own (`main -> mid1.inc -> ... -> inner.inc`).
+
+use oq3_semantics::semantic_error::{SemanticErrorKind, SemanticErrorList};
+use oq3_semantics::syntax_to_semantics::parse_source_string_with_path_search;
+use std::path::PathBuf;
+
+pub fn scratch_dir(tag: &str) -> PathBuf {
+    use std::sync::atomic::{AtomicU64, Ordering};
+    static N: AtomicU64 = AtomicU64::new(0);
+    let n = N.fetch_add(1, Ordering::Relaxed);
+    let base = std::env::current_dir().unwrap_or_else(|_| PathBuf::from("."));
+    let d = base.join("fs").join(format!("{tag}-{}-{n}", std::process::id()));
+    let _ = std::fs::create_dir_all(&d);
+    std::fs::canonicalize(&d).unwrap_or(d)
+}
+
+/// One diagnostic of any file of the chain: kind name, the kind itself, the source text of its range.
+pub struct ChainDiag {
+    pub kind: String,
+    pub full: SemanticErrorKind,
+    pub text: String,
+    pub file: String,
+}
+
+pub struct Chain {
+    pub res: ParseResult<SourceString>,
+    pub diags: Vec<ChainDiag>,
+    /// text of the main file
+    pub main_text: String,
+}
+
+fn collect_chain(list: &SemanticErrorList, main_text: &str, out: &mut Vec<ChainDiag>, top: bool) {
+    let file = list.source_file_path().to_string_lossy().to_string();
+    let src = if top { main_text.to_string() } else { std::fs::read_to_string(list.source_file_path()).unwrap_or_default() };
+    for e in list.iter() {
+        let (a, b): (usize, usize) = (e.range().start().into(), e.range().end().into());
+        out.push(ChainDiag { kind: diag_kind(e), full: e.kind().clone(), text: src.get(a..b).unwrap_or("").to_string(), file: file.clone() });
+    }
+    for inc in list.include_errors() {
+        collect_chain(inc, main_text, out, false);
+    }
+}
+
+/// `inner` becomes the innermost file; `main_rest` follows the include in the main text; `mids`
+/// clean files sit in between (0 = main includes inner.inc directly).
+pub fn analyse_chain(inner: &str, main_rest: &str, mids: usize, tag: &str) -> Result<Chain, AErr> {
+    let dir = scratch_dir(tag);
+    let _ = std::fs::write(dir.join("inner.inc"), inner);
+    let mut next = "inner.inc".to_string();
+    for m in (0..mids).rev() {
+        let name = format!("mid{m}.inc");
+        let _ = std::fs::write(dir.join(&name), format!("// nothing of its own\ninclude \"{next}\";\n"));
+        next = name;
+    }
+    let main_text = format!("include \"{next}\";\n{main_rest}");
+    let d2 = dir.clone();
+    let mt = main_text.clone();
+    let r = guard(move || parse_source_string_with_path_search(&mt, Some("model.qasm"), Some(&[d2])));
+    let out = match r {
+        Err(p) => Err(AErr::Panic(p.site(), format!("{}:{} {}", p.file, p.line, p.msg))),
+        Ok(res) => {
+            if res.any_syntax_errors() {
+                Err(AErr::Rejected(format!("{} syntax diagnostics", res.num_syntax_errors())))
+            } else {
+                let mut diags = Vec::new();
+                collect_chain(res.semantic_errors(), &main_text, &mut diags, true);
+                Ok(Chain { res, diags, main_text })
+            }
+        }
+    };
+    let _ = std::fs::remove_dir_all(&dir);
+    out
+}
